@@ -227,7 +227,17 @@ func TestVerifC17RoundTrip(t *testing.T) {
 
 func TestVerifC17ParseTotal(t *testing.T) {
 	defer vstats.Flush()
-	rapid.Check(t, func(t *rapid.T) {
+	rapid.Check(t, c17ParseTotalProp)
+}
+
+// FuzzVerifC17ParseTotal: the same property under Go's coverage-guided fuzzer (thorough tier).
+func FuzzVerifC17ParseTotal(f *testing.F) {
+	defer vstats.Flush()
+	f.Fuzz(rapid.MakeFuzz(c17ParseTotalProp))
+}
+
+func c17ParseTotalProp(t *rapid.T) {
+	{
 		var text string
 		if rapid.Bool().Draw(t, "structured") {
 			// valid text with a few hostile edits
@@ -263,5 +273,5 @@ func TestVerifC17ParseTotal(t *testing.T) {
 			}
 		}
 		vstats.Case(text, err == nil && len(recs) > 0, fmt.Sprintf("accepted:%v", err == nil))
-	})
+	}
 }
